@@ -8,6 +8,7 @@ from scipy.interpolate import CloughTocher2DInterpolator, LinearNDInterpolator
 import common as C
 import gen as G
 import verde as vd
+from props import large as L
 
 ID = "C03"
 TRANSLATED = "kernels"      # Gen/Kernels.lean is regenerated from /repo by py2lean.py and bridged to the model in Props/C03.lean
@@ -65,6 +66,13 @@ def mk_scipy(which, rescale, es, ns, d, qe, qn, kind):
 
 
 def corpus():
+    return _corpus() + [L.case("predict_in_pieces", ["spline", 65536, 4, "float64"], "corpus-large-queries"),
+                       L.case("predict_in_pieces", ["spline", 131072, 5, "float64"], "corpus-large-queries"),
+                       L.case("predict_in_pieces", ["vs2d", 65536, 6, "float64"], "corpus-large-queries"),
+                       L.case("compiled_loops", [3], "corpus-compiled-loops")]
+
+
+def _corpus():
     cs = []
     for md in (0.0, 1e-3, 1.0, 1e4):
         oe = list(DIST) + [r * 0.6 for r in DIST]
@@ -179,6 +187,9 @@ def _numba_src(fn, a):
 
 
 def impl(case):
+    if case["fn"] == "large":
+        r = C.call(L.run, case["args"])
+        return r if C.is_err(r) else ["large", r]
     a = case["args"]
     fn = case["fn"]
 
@@ -265,6 +276,8 @@ def _close(x, y, tol=1e-12):
 
 
 def compare(case, io, mo):
+    if case["fn"] == "large":
+        return "diff:implementation failed: " + io[1] if C.is_err(io) else "ok"
     if case["fn"] == "scipy":
         return "ok"
     if C.is_err(io):
@@ -283,6 +296,8 @@ def g_spline(r):
 
 
 def oracle(case, io):
+    if case["fn"] == "large":
+        return (io[1] or None) if not C.is_err(io) else "failed: " + io[1]
     a = case["args"]
     fn = case["fn"]
     if C.is_err(io):
@@ -376,6 +391,8 @@ def oracle(case, io):
 
 
 def nontrivial(case, io):
+    if case["fn"] == "large":
+        return not C.is_err(io)
     if C.is_err(io):
         return False
     if case["fn"] == "scipy":
